@@ -101,4 +101,104 @@ theorem partitions_nodup (l : List Nat) (hl : l.Nodup) : (partitions l).Nodup :=
 theorem partitions_count_bell (l : List Nat) : (partitions l).length = bell l.length := by
   rw [(partitions_perm l).length_eq, List.length_map, raw_partitions_count_bell]
 
+/-! ## subsets.py -/
+
+/-- `itertools.combinations(l, r)` as used by `subsets`: exactly the sub-lists (in position
+    order) of length `r` … -/
+theorem combinations_spec {α : Type} (r : Nat) (l s : List α) :
+    s ∈ combs r l ↔ s.Sublist l ∧ s.length = r := combs_mem_iff r l s
+
+/-- … each once … -/
+theorem combinations_nodup {α : Type} (r : Nat) (l : List α) (hl : l.Nodup) : (combs r l).Nodup :=
+  combs_nodup r l hl
+
+/-- … `C(n, r)` of them. -/
+theorem combinations_count {α : Type} (r : Nat) (l : List α) :
+    (combs r l).length = choose l.length r := combs_length_choose r l
+
+/-- `subsets(l, a, b)` for `0 ≤ a`, `0 ≤ b`: it does not raise, and yields exactly the
+    sub-lists of `l` whose length is in `[a, b]`, each once. -/
+theorem subsets_spec {α : Type} (l : List α) (a b : Nat) :
+    ∃ L, subsets l (a : Int) (b : Int) = .ok L ∧
+      (∀ s, s ∈ L ↔ s.Sublist l ∧ a ≤ s.length ∧ s.length ≤ b) ∧ (l.Nodup → L.Nodup) :=
+  ⟨subsetsL l a b, subsets_eq l a b, fun s => mem_subsetsL l s a b, subsetsL_nodup l a b⟩
+
+/-- A negative `max_size` is relative to the length: `-1 - k` means `len(l) - k`. -/
+theorem subsets_relative_max {α : Type} (l : List α) (a k : Nat) (hk : k ≤ l.length) :
+    subsets l (a : Int) (-1 - (k : Int)) = .ok (subsetsL l a (l.length - k)) :=
+  subsets_core l a (l.length - k) (-1 - (k : Int)) (by
+    have : (-1 - (k : Int)) < 0 := by omega
+    simp only [this, if_true]; omega)
+
+/-- A requested negative size reaches `itertools.combinations` and raises `ValueError`. -/
+theorem subsets_negative_min_raises {α : Type} (l : List α) (a : Nat) (b : Nat) :
+    subsets l (-(a : Int) - 1) (b : Int) = .error .valueError := by
+  unfold subsets intRange
+  have h1 : ¬ ((b : Int) < 0) := by omega
+  simp only [h1, if_false]
+  have : ((b : Int) + 1 - (-(a : Int) - 1)).toNat = (b + a + 1) + 1 := by omega
+  rw [this, List.range_succ_eq_map]
+  simp
+  omega
+
+/-- `non_empty_subsets(l)`: never raises; exactly the non-empty sub-lists of `l`, each once;
+    `2^n - 1` of them. -/
+theorem non_empty_subsets_spec {α : Type} (l : List α) :
+    ∃ L, nonEmptySubsets l = .ok L ∧
+      (∀ s, s ∈ L ↔ s.Sublist l ∧ s ≠ []) ∧ (l.Nodup → L.Nodup) ∧ L.length = 2 ^ l.length - 1 := by
+  refine ⟨subsetsL l 1 l.length, nonEmptySubsets_eq l, ?_, subsetsL_nodup l 1 l.length, ?_⟩
+  · intro s
+    rw [mem_subsetsL]
+    constructor
+    · rintro ⟨hs, h1, _⟩
+      exact ⟨hs, by intro h; simp [h] at h1⟩
+    · rintro ⟨hs, hne⟩
+      refine ⟨hs, ?_, hs.length_le⟩
+      cases s with
+      | nil => exact absurd rfl hne
+      | cons _ _ => simp
+  · unfold subsetsL
+    rw [List.length_flatMap]
+    have hpow := sumTo_combs l l.length (Nat.le_refl _)
+    cases hn : l.length with
+    | zero => simp
+    | succ m =>
+      rw [hn] at hpow
+      have hs := sumTo_shift (fun r => (combs r l).length) m
+      rw [hpow] at hs
+      simp only [combs, List.length_singleton] at hs
+      have e : m + 1 + 1 - 1 = m + 1 := by omega
+      rw [e, sum_range_eq_sumTo]
+      have : sumTo (fun i => (combs (1 + i) l).length) m = sumTo (fun r => (combs (r + 1) l).length) m := by
+        apply sumTo_congr; intro r _; rw [Nat.add_comm]
+      rw [this]
+      have hc : (combs 0 l).length = 1 := by cases l <;> simp [combs]
+      omega
+
+/-- `non_empty_proper_subsets(l)`: the non-empty sub-lists other than `l` itself. -/
+theorem non_empty_proper_subsets_spec {α : Type} (l : List α) (hl : l ≠ []) :
+    ∃ L, nonEmptyProperSubsets l = .ok L ∧
+      (∀ s, s ∈ L ↔ s.Sublist l ∧ s ≠ [] ∧ s ≠ l) ∧ (l.Nodup → L.Nodup) := by
+  have hlen : 1 ≤ l.length := by cases l with
+    | nil => exact absurd rfl hl
+    | cons _ _ => simp
+  refine ⟨subsetsL l 1 (l.length - 1), ?_, ?_, subsetsL_nodup l 1 (l.length - 1)⟩
+  · have := subsets_relative_max l 1 1 hlen
+    simpa [nonEmptyProperSubsets] using this
+  · intro s
+    rw [mem_subsetsL]
+    constructor
+    · rintro ⟨hs, h1, h2⟩
+      refine ⟨hs, by intro h; simp [h] at h1, ?_⟩
+      rintro rfl; omega
+    · rintro ⟨hs, hne, hnl⟩
+      refine ⟨hs, ?_, ?_⟩
+      · cases s with
+        | nil => exact absurd rfl hne
+        | cons _ _ => simp
+      · have := hs.length_le
+        by_cases h : s.length = l.length
+        · exact absurd (hs.eq_of_length h) hnl
+        · omega
+
 end Pharmpy.C18
